@@ -457,6 +457,26 @@ func genM1(r *rand.Rand, p Profile, id string) Case {
 			t.cur = v
 			t.dirty = false
 			obs(r, g, t, false, &ops)
+		case "failedopen":
+			// a new tree object whose first LoadVersion fails (no such version) is used for reads of
+			// the retained versions, then replaced by a properly opened one
+			if len(t.versions) == 0 || t.dirty {
+				continue
+			}
+			ops = append(ops, []string{"reopenat", i64(t.latest() + 1 + int64(r.Intn(3))), fmt.Sprintf("fast=%v", r.Intn(4) != 0)})
+			for i := 0; i < 3; i++ {
+				v := t.versions[r.Intn(len(t.versions))]
+				if i == 0 {
+					v = t.latest()
+				}
+				k := hx(g.key())
+				ops = append(ops, []string{"r", "v" + i64(v), "get", k}, []string{"getv", k, i64(v)},
+					[]string{"r", "v" + i64(v), "iter", "-", "-", "0", "1"})
+			}
+			ops = append(ops, []string{"reopen", fmt.Sprintf("fast=%v", r.Intn(2) == 0)})
+			t.cur = t.latest()
+			t.dirty = false
+			continue
 		case "staleidx":
 			// index disabled, history rewritten up to the same version number, index re-enabled
 			if len(t.versions) < 2 || t.cur != t.latest() {
@@ -609,6 +629,18 @@ func genM1(r *rand.Rand, p Profile, id string) Case {
 					}
 					ops = append(ops, []string{"cost", tg, "get", hx(k)}, []string{"cost", tg, "has", hx(k)}, []string{"cost", tg, "gwi", hx(k)},
 						[]string{"cost", tg, "gbi", i64(int64(r.Intn(seq + 2)))}, []string{"cost", tg, "gproof", hx(k)})
+				}
+				if p.Order != "" && seq > 0 && r.Intn(3) == 0 {
+					// a sweep of absence proofs over the whole key range (the cost of a proof of
+					// absence depends on where the two neighbours sit), and of lookups by rank
+					stride := seq/48 + 1
+					for j := 0; j < seq; j += stride {
+						k := []byte(fmt.Sprintf("k%05d0", j))
+						if p.Order == "desc" || (p.Order == "alt" && r.Intn(2) == 0) {
+							k = []byte(fmt.Sprintf("k%05d0", 99999-j))
+						}
+						ops = append(ops, []string{"cost", tg, "gproof", hx(k)}, []string{"cost", tg, "has", hx(k)})
+					}
 				}
 			}
 			continue
